@@ -75,6 +75,28 @@ Theorem C20_accepted_set_writes_valid : forall q ex f k t,
 Proof. exact accepted_set_writes_valid. Qed.
 Print Assumptions C20_accepted_set_writes_valid.
 
+(* 4'. the guards of validate_config read from the source ARE the documented validity (required keys; level and format
+      sets; max_retries a non-negative integer; timeout a positive number; app_name non-empty) - an edited operator,
+      bound, set or message in src/config.py breaks this - so what an accepted `config set` writes is valid as documented. *)
+Theorem C20_validators_are_documented : (forall c, valid c = valid_doc c) /\
+  max_retries_msg = "max_retries must be a non-negative integer" /\ timeout_msg = "timeout must be a positive number"
+  /\ app_name_msg = "app_name must be a non-empty string".
+Proof. exact (conj valid_is_documented documented_messages). Qed.
+Print Assumptions C20_validators_are_documented.
+
+Theorem C20_documented_boundaries :
+  check_num_guard "timeout" CLe 0 [("timeout", VInt 0)] = false /\
+  check_num_guard "timeout" CLe 0 [("timeout", VFloat false "0" "0")] = false /\
+  check_num_guard "timeout" CLe 0 [("timeout", VFloat true "0" "0")] = false /\
+  check_num_guard "timeout" CLe 0 [("timeout", VFloat false "0" "001")] = true /\
+  check_num_guard "timeout" CLe 0 [("timeout", VInt 1)] = true /\
+  check_num_guard "timeout" CLe 0 [("timeout", VInt (-1))] = false /\
+  check_int_guard "max_retries" CLt 0 [("max_retries", VInt 0)] = true /\
+  check_int_guard "max_retries" CLt 0 [("max_retries", VInt (-1))] = false /\
+  check_int_guard "max_retries" CLt 0 [("max_retries", VFloat false "1" "0")] = false.
+Proof. exact documented_boundaries. Qed.
+Print Assumptions C20_documented_boundaries.
+
 (* 5. ... and, with the key flag off (or for keys without a hyphen), the written file loads again, validates, and
       `config get` prints the accepted value. *)
 Theorem C20_accepted_set_reloads : forall q ex f k t, q_cli_raw_key q = false \/ plain_key k = true ->
